@@ -26,7 +26,8 @@ CONFIG = {
 }
 
 OBJ_KINDS = ['makespan', 'flowtime', 'priorities', 'start_latest', 'greatest_start', 'indicator_min', 'indicator_max',
-             'bounded_min', 'bounded_min_tight', 'bounded_min_tight', 'bounded_max', 'bounded_max', 'multi', 'multi_weighted']
+             'bounded_min', 'bounded_min_tight', 'bounded_min_tight', 'bounded_max', 'bounded_max', 'multi', 'multi_weighted',
+             'weighted_tradeoff']
 
 
 # ----------------------------------------------------------------------------------------------
@@ -69,11 +70,14 @@ def small_program(r, with_opt=True):
     return ops
 
 
-def gen_case(r, mode):
+def gen_case(r, mode, k=None):
     prog = small_program(r)
     case = {'prog': prog, 'objs': [], 'cfg': {}, 'history': []}
     if mode == 'optimize':
-        case['objs'] = [r.choice(OBJ_KINDS)]
+        # every objective kind in turn (stratified: a quick run covers each kind several times), the random draw is kept so
+        # that the stream is the same
+        drawn = r.choice(OBJ_KINDS)
+        case['objs'] = [drawn if k is None else OBJ_KINDS[k % len(OBJ_KINDS)]]
         case['cfg'] = dict(max_iter=r.choice([None, None, None, 1, 2, 3, 0]), optimizer='incremental')
         case['history'] = [('solve',)]
     elif mode == 'enumerate':
@@ -133,6 +137,16 @@ def add_objectives(ps, im, kinds, r):
         elif k == 'multi':
             ps.ObjectiveMinimizeMakespan()
             ps.ObjectiveMinimizeFlowtime()
+        elif k == 'weighted_tradeoff':
+            # two objectives that pull in opposite directions, so that the weights decide: WA (3 long) and WB (2 long) cannot
+            # overlap; with weight 3 on the end of WA and 1 on the end of WB the optimum runs WA first (3*3 + 5 = 14 against
+            # 3*5 + 2 = 17), with equal weights it would run WB first
+            wa = ps.FixedDurationTask(name='WA', duration=3)
+            wb = ps.FixedDurationTask(name='WB', duration=2)
+            ps.TasksDontOverlap(task_1=wa, task_2=wb)
+            ps.Objective(name='RawEndWA', target=wa._end, weight=3, kind='minimize')
+            ind = ps.IndicatorFromMathExpression(name='EndWB', expression=wb._end)
+            ps.ObjectiveMinimizeIndicator(target=ind, weight=1)
         elif k == 'multi_weighted':
             # weighted sum of a raw expression objective and an indicator objective
             ps.Objective(name='RawEnd', target=tasks[0]._end, weight=r.choice([2, 3]), kind='minimize')
@@ -585,7 +599,7 @@ def run(ctx, replay=None):
     if replay is not None:
         cases = [replay['case']]
     else:
-        cases = corpus_cases(ctx.prop) + [gen_case(r, cfg['mode']) for _ in range(cfg['n'][0 if quick else 1])]
+        cases = corpus_cases(ctx.prop) + [gen_case(r, cfg['mode'], k) for k in range(cfg['n'][0 if quick else 1])]
     for c in cases:
         c['mode'] = cfg['mode']
         c['work'] = ctx.work
